@@ -668,6 +668,7 @@ package genetics
 //@     invariant [parentIds] forall x *network.NNode :: wasAllocated(x) ==> x.Id == old(x.Id) && x.NeuronType == old(x.NeuronType)
 //@   loop 2:
 //@     invariant fresh(newNodes) && nonNilNodes(newNodes)
+//@     leave [walkedToEnd] i2 >= stopper
 //@     invariant [io] forall i :: 0 <= i && i < len(og.Nodes) && isIO(og.Nodes[i]) ==> (exists j :: 0 <= j && j < len(newNodes) && newNodes[j].Id == og.Nodes[i].Id)
 //@     invariant [parentNodes] forall b :: wasAllocated(b) ==> Mem[*network.NNode][b] == old(Mem[*network.NNode][b])
 //@     invariant [parentIds] forall x *network.NNode :: wasAllocated(x) ==> x.Id == old(x.Id) && x.NeuronType == old(x.NeuronType)
